@@ -874,10 +874,10 @@ func genKv(g *Gen) {
 	}
 	s.exhaustive(g.Scale(2, 5))
 	// round 4: kept bucket handles, BucketMeta / FetchBucket cache, read transaction used after its end
-	for i := g.Scale(40, 2000); i > 0; i-- {
+	for i := g.Scale(40, 1000); i > 0; i-- {
 		s.fetchCacheScenario()
 	}
-	for i := g.Scale(250, 20000); i > 0; i-- {
+	for i := g.Scale(250, 8000); i > 0; i-- {
 		s.handleHistory()
 	}
 }
